@@ -118,7 +118,7 @@ def check_one(ctx, rec, route):
 QUICK_N = dict(
     seq=140, seqview=50, coll=60, aligned=35, collseq=35, newcoll=35, newcollseq=45, seqsdata=12, tree=60, table=50,
     dictarray=40, distmat=25, alphabet=25, moltype=6, newalphabet=30, indelmap=60, featuremap=60, db=14, model=14,
-    lf=5, nc=25, result=24,
+    lf=16, nc=30, result=30,
 )
 
 
@@ -204,7 +204,7 @@ def spec_check(ctx, budget):
             if fam == "lf":
                 rec = gen(rng, optimise=(i % 3 == 2))
             elif fam == "result":
-                rec = gen(rng, heavy=(i % 6 == 5))
+                rec = gen(rng, heavy=(i % 3 == 2))
             else:
                 rec = gen(rng)
             for route in routes:
